@@ -63,7 +63,7 @@ func (fx *fnExec) recordReplayTerms() {
 		h := fx.heap(fx.st, "E.byte", arrSort(SInt, arrSort(SInt, SInt)))
 		rb := &replayBytes{arr: add(sl.Arr.S), off: add(sl.Off.S), ln: add(sl.Len.S)}
 		for i := 0; i < replayK; i++ {
-			rb.elems = append(rb.elems, add(fmt.Sprintf("(select (select %s %s) (+ %s %d))", h.S, sl.Arr.S, sl.Off.S, i)))
+			rb.elems = append(rb.elems, add(fmt.Sprintf("(select (select %s %s) %s)", h.S, sl.Arr.S, fx.eIdx(sl.Off, intLit64(int64(i))).S)))
 		}
 		return rb
 	}
